@@ -69,7 +69,9 @@ class CompositeOperation(Generic[OperationType]):
         Displacement
             The combined operation to perform on the atoms.
         """
-        return np.sum([op.calculate(context) for op in self.operations], axis=0)
+        results = [op.calculate(context) for op in self.operations]
+
+        return np.sum(np.broadcast_arrays(*results), axis=0)
 
     @overload
     def __add__(
